@@ -23,6 +23,7 @@ func bufKey(p Ptr) string { return fmt.Sprintf("%d%v", p.Obj.ID, p.Path) }
 
 func (e *Exec) bufOf(p Ptr) *absBuf {
 	p = e.derefCheck(p)
+	e.effectOn(p.Obj.ID)
 	tab, _ := e.Ext["bufs"].(map[string]*absBuf)
 	if tab == nil {
 		tab = map[string]*absBuf{}
@@ -91,6 +92,23 @@ func registerJSON(p *Program) {
 		return sym.BoolC(!bad)
 	})
 	reg("github.com/go-openapi/swag.ConcatJSON", false, func(e *Exec, a []Value) Value { return e.concatJSON(a[0].(Slice)) })
+
+	// json.RawMessage keeps the text as it is
+	reg("(*encoding/json.RawMessage).UnmarshalJSON", false, func(e *Exec, a []Value) Value {
+		p := a[0].(Ptr)
+		if p.Obj == nil {
+			return e.mkError("json.RawMessage: UnmarshalJSON on nil pointer")
+		}
+		e.store(p, a[1])
+		return Iface{}
+	})
+	reg("(encoding/json.RawMessage).MarshalJSON", false, func(e *Exec, a []Value) Value {
+		s := a[0].(Slice)
+		if s.Obj == nil && s.Abs == nil {
+			return Tuple{absSlice(JNull{}), Iface{}}
+		}
+		return Tuple{s, Iface{}}
+	})
 
 	// bytes on abstract texts
 	p.intrinsics["bytes.Equal"] = func(e *Exec, _ *frame, _ *ssa.Function, a []Value) (Value, bool) {
@@ -203,6 +221,38 @@ func registerJSON(p *Program) {
 			return sym.False
 		}
 		return e.jeq(x, y)
+	})
+	h("vAssertJSONEq", func(e *Exec, a []Value) Value {
+		x, y := e.textValue(a[0].(Slice)), e.textValue(a[1].(Slice))
+		what := e.cstr(a[2])
+		xo, ok1 := x.(*JObj)
+		yo, ok2 := y.(*JObj)
+		if !ok1 || !ok2 {
+			e.Assert(e.jeq(x, y), what+": values differ")
+			return nil
+		}
+		show := func(k Str) string {
+			if k.Concrete() {
+				return k.S
+			}
+			return "(symbolic name)"
+		}
+		oneWay := func(p, q *JObj, suffix string) {
+			for _, m := range p.M {
+				var alts []*T
+				for _, n := range q.M {
+					ne := e.jstrEq(m.K, n.K)
+					if ne.IsFalse() {
+						continue
+					}
+					alts = append(alts, sym.And(guardT(n.G), ne, e.jeq(m.V, n.V)))
+				}
+				e.Assert(sym.Implies(guardT(m.G), sym.Or(alts...)), what+": member "+show(m.K)+suffix)
+			}
+		}
+		oneWay(xo, yo, " lost or changed")
+		oneWay(yo, xo, " appears only in the output or with another value")
+		return nil
 	})
 	h("vJSONBytesEq", func(e *Exec, a []Value) Value {
 		x, y := e.textValue(a[0].(Slice)), e.textValue(a[1].(Slice))
